@@ -1,6 +1,8 @@
 import Pike.Model.Proxy
 import Pike.Lemmas.Header
 import Pike.Lemmas.Rewrite
+import Pike.Spec.Skeleton
+import Pike.Facts
 /-
 C15 — requests and responses cross the proxy with only the configured changes (PARTIAL: the
 transport — net/http, httputil.ReverseProxy — and rewrite rules that are general regular
@@ -9,6 +11,12 @@ expressions are outside; the documented wildcard forms are modelled).
 namespace Pike
 namespace C15
 open Proxy Str
+
+/-- Obligation on the regenerated statement skeletons of `mergeHeader` and `AddQuery`: configured headers are ADDED value by value (`dst.Add`), configured query parameters appended to the raw query. -/
+theorem skeleton_transcribed :
+    Facts.skel_Location_mergeHeader = Spec.Skeleton.Location_mergeHeader
+    ∧ Facts.skel_Location_AddQuery = Spec.Skeleton.Location_AddQuery := by
+  refine ⟨?_, ?_⟩ <;> rfl
 
 /-- Obligation on the extracted facts: for a `fetching` request the proxy withholds the validators
 AND the range headers. -/
@@ -148,6 +156,47 @@ theorem rewrite_wildcards (path : Str) (rule : Str × Str)
       obtain ⟨i, _, hi⟩ := List.exists_of_findSome?_eq_some hm
       obtain ⟨h1, h2, h3⟩ := matchHere_sound _ _ caps (by intro e; rw [e] at hl; simp at hl) hi
       exact ⟨i, caps, rfl, h1, h2, h3⟩
+
+/-- FULL STATEMENT for the documented two-wildcard form `A*B*:VALUE` in the unambiguous case.
+If the client's path is `A x B y` without blanks and `B` does not occur again further right, the
+upstream path is VALUE with `$1 := x` and `$2 := y`. -/
+theorem rewrite_two_stars (a b x y value : Str)
+    (hsp : takeNonSpace (x ++ b ++ y) = x ++ b ++ y)
+    (huniq : ∀ n, x.length < n → n ≤ (x ++ b ++ y).length → hasPrefix b ((x ++ b ++ y).drop n) = false)
+    (ha : '*' ∉ a) (hb : '*' ∉ b) :
+    rewriteG (a ++ x ++ b ++ y) (a ++ '*' :: b ++ ['*'], value) = substN [x, y] value := by
+  have hstars := splitStars_two a b ha hb
+  unfold rewriteG
+  simp only [hstars, List.length_cons, List.length_nil]
+  have h1 : ¬ (0 + 1 + 1 + 1 ≤ 1 ∨ 0 + 1 + 1 + 1 > 10) := by omega
+  rw [if_neg h1]
+  have hm : matchAny [a, b, []] (a ++ x ++ b ++ y) = some [x, y] := by
+    unfold matchAny
+    rw [List.range_succ_eq_map, List.findSome?_cons]
+    have hp : hasPrefix a (a ++ x ++ b ++ y) = true := by
+      rw [hasPrefix_iff]; exact ⟨x ++ b ++ y, by simp [List.append_assoc]⟩
+    have hdrop : List.drop a.length (a ++ x ++ b ++ y) = x ++ b ++ y := by
+      simp [List.append_assoc]
+    have : matchHere [a, b, []] (List.drop 0 (a ++ x ++ b ++ y)) = some [x, y] := by
+      rw [List.drop_zero]
+      show (if hasPrefix a (a ++ x ++ b ++ y) then _ else none) = _
+      rw [if_pos hp]
+      simp only [hdrop, hsp]
+      apply findSome_rev_range _ _ x.length [x, y] (by simp)
+      · intro n h1 h2
+        rw [matchHere_last_star, huniq n h1 h2]
+        rfl
+      · have hb : hasPrefix b (List.drop x.length (x ++ b ++ y)) = true := by
+          rw [hasPrefix_iff]; exact ⟨y, by simp [List.append_assoc]⟩
+        have hdrop2 : List.drop b.length (List.drop x.length (x ++ b ++ y)) = y := by
+          simp [List.append_assoc]
+        have hy : takeNonSpace y = y := by
+          have : takeNonSpace ((x ++ b) ++ y) = (x ++ b) ++ y := hsp
+          exact takeNonSpace_append_left this
+        rw [matchHere_last_star, if_pos hb, hdrop2, hy]
+        simp [List.append_assoc]
+    rw [this]
+  rw [hm]
 
 /- the documented examples, evaluated (tests of the model, not theorems about all inputs) -/
 example : rewriteRule "/rest/v1/user/42".toList ("/rest/*/user/*".toList, "/$1/$2".toList) = "/v1/42".toList := by decide
